@@ -11,9 +11,10 @@ from .ir import ZERO, ONE, const
 
 SC = ['Dual', 'Dual2', 'Dual3', 'HyperDual', 'HyperHyperDual']
 VEC_QUICK = ['DualVec2', 'Dual2VecD2', 'HyperDualVec21']
-VEC_ALL = ['DualVec1', 'DualVec2', 'DualVec3', 'DualVecD2', 'Dual2Vec1', 'Dual2Vec2', 'Dual2VecD2',
+VEC_ALL = ['DualVec1', 'DualVec2', 'DualVec3', 'DualVec4', 'DualVec6', 'DualVecD2', 'DualVecD4', 'DualVecD6',
+           'Dual2Vec1', 'Dual2Vec2', 'Dual2Vec3', 'Dual2Vec4', 'Dual2VecD2', 'Dual2VecD4',
            'HyperDualVec11', 'HyperDualVec21', 'HyperDualVec12', 'HyperDualVec22', 'HyperDualVec23',
-           'HyperDualVecD22']
+           'HyperDualVec33', 'HyperDualVec42', 'HyperDualVecD22', 'HyperDualVecD33']
 NEST_QUICK = ['Dual2<Dual>']
 NEST_ALL = ['Dual<Dual>', 'Dual2<Dual>', 'Dual<Dual2>', 'HyperDual<Dual>', 'Dual3<Dual>', 'Dual<Dual<Dual>>',
             'DualVec2<Dual>', 'Dual<DualVec2>', 'Dual2VecD2<Dual>']
@@ -441,8 +442,9 @@ def kind_domain(case, res, terms):
 # C07 absent == zero
 # ---------------------------------------------------------------------------------------------
 C07_SHAPES_QUICK = ['DualVec2', 'DualVecD2', 'Dual2VecD2', 'HyperDualVec21']
-C07_SHAPES_ALL = ['DualVec1', 'DualVec2', 'DualVec3', 'DualVecD2', 'Dual2Vec1', 'Dual2Vec2', 'Dual2VecD2',
-                  'HyperDualVec11', 'HyperDualVec21', 'HyperDualVec12', 'HyperDualVec22', 'HyperDualVecD22',
+C07_SHAPES_ALL = ['DualVec1', 'DualVec2', 'DualVec3', 'DualVec6', 'DualVecD2', 'DualVecD6', 'Dual2Vec1', 'Dual2Vec2',
+                  'Dual2Vec4', 'Dual2VecD2', 'Dual2VecD4', 'HyperDualVec11', 'HyperDualVec21', 'HyperDualVec12',
+                  'HyperDualVec22', 'HyperDualVec33', 'HyperDualVecD22', 'HyperDualVecD33',
                   'DualVec2<Dual>', 'Dual<DualVec2>', 'Dual2VecD2<Dual>']
 
 
@@ -1501,7 +1503,8 @@ def drop_undecided(run, max_fraction=0.25):
     inconclusive (the machinery, not the code, needs attention)."""
     und = [x for x in run.inconclusive if x.get('reason') in (
         'solver model did not reproduce natively', 'solver unknown/timeout') or
-        'exceeded the wall-clock limit' in x.get('reason', '')]
+        'exceeded the wall-clock limit' in x.get('reason', '') or
+        'died without a result' in x.get('reason', '') or 'MemoryError' in x.get('reason', '')]
     other = [x for x in run.inconclusive if x not in und]
     if len(und) <= max_fraction * max(run.obligations, 1):
         run.inconclusive = other
@@ -1515,7 +1518,7 @@ def drop_undecided(run, max_fraction=0.25):
 def c03(run):
     shapes = (['Dual2', 'Dual3', 'HyperDual', 'HyperHyperDual', 'DualVec2', 'Dual2<Dual>'] if run.tier == 'quick'
               else SC + ['DualVec2', 'Dual2Vec2', 'HyperDualVec22', 'DualVecD2'] + NEST_ALL[:6])
-    count = 10 if run.tier == 'quick' else 400
+    count = 10 if run.tier == 'quick' else 40
     run.timeout_ms = 3000 if run.tier == 'quick' else 15000
     c03_programs(run, shapes, count, 3 if run.tier == 'quick' else 4)
     drop_undecided(run)
@@ -1546,7 +1549,9 @@ C04_TYPES_ALL = C04_TYPES_QUICK + ['DualVec1', 'DualVec3', 'HyperDualVec21', 'Hy
                                    'Dual<DualVec2>']
 STORAGE_PAIRS = [('DualVec1', 'DualVecD1'), ('DualVec2', 'DualVecD2'), ('DualVec3', 'DualVecD3'),
                  ('Dual2Vec1', 'Dual2VecD1'), ('Dual2Vec2', 'Dual2VecD2'), ('HyperDualVec11', 'HyperDualVecD11'),
-                 ('HyperDualVec22', 'HyperDualVecD22'), ('HyperDualVec23', 'HyperDualVecD23')]
+                 ('HyperDualVec22', 'HyperDualVecD22'), ('HyperDualVec23', 'HyperDualVecD23'),
+                 ('DualVec4', 'DualVecD4'), ('DualVec6', 'DualVecD6'), ('Dual2Vec3', 'Dual2VecD3'),
+                 ('Dual2Vec4', 'Dual2VecD4'), ('HyperDualVec33', 'HyperDualVecD33')]
 
 
 def _direction_maps(dirs, nv, rng):
